@@ -8,7 +8,7 @@ import (
 	"github.com/gardenbed/emerge/internal/vh/ref"
 )
 
-var gapPieces = []string{" ", " ", "  ", "\t", "\n", "\n", "\r\n", "\n\n", "// note\n", "//\n", "// a */ b\n", "//\ttab\tin a comment\n", "// cr only\r", "//\r", "// crlf\r\n", "\r", "\n\r", "/* c */", "/**/", "/* * **/", "/* two\nlines */", "/* // */", " /* c */ ", "/*\t*\t*/", "/* *\r\n * x */", "/* a *\tb *\n*/", "\t", "\r\n\t"}
+var gapPieces = []string{" ", " ", "  ", "\t", "\n", "\n", "\r\n", "\n\n", "// note\n", "//\n", "// a */ b\n", "//\ttab\tin a comment\n", "// cr only\r", "// back\\slash \\\n", "/* back\\slash */", "//\r", "// crlf\r\n", "\r", "\n\r", "/* c */", "/**/", "/* * **/", "/* two\nlines */", "/* // */", " /* c */ ", "/*\t*\t*/", "/* *\r\n * x */", "/* a *\tb *\n*/", "\t", "\r\n\t"}
 
 // Seps draws a layout: the text between the tokens (before the first, between, after the last).  A separator is
 // always present where two tokens would otherwise be scanned differently.
